@@ -1364,6 +1364,7 @@ func c15RunWitness(r *Run, name string) {
 func TestC15(t *testing.T) {
 	r := NewRun(t, "C15")
 	defer r.Close()
+	blockFailHook = nil // this harness classifies block failures itself (C11/block/… with the cause)
 	if rl := ReplayLines(); rl != nil {
 		var tr *c15Trace
 		halted := false // the trace's chain halted: skip to the next trace
